@@ -73,7 +73,7 @@ CLAIMED['C05'] = dict(
     text='An independent executable line grammar (Spec/LineGrammar) and theorems for ALL strings in every user-controlled position: escape output has no raw LF and only escaped quotes, '
          'any label name / metric name renders as exactly one grammar item (any_label_name_is_safe, any_metric_name_is_safe), the text exposition splits on LF into exactly the expected lines, '
          'each recognised (text_lines_exact), OpenMetrics likewise ending in exactly one # EOF (om_lines_exact_partial, om_single_eof_partial: hypothesis on the unit = known finding F4), '
-         'constructor-accepted inputs expose without error, Graphite sanitiser whitelist and one line per sample. Regex anchors, escape chains and the Graphite class are re-extracted each run; '
+         'HELP text is a valid docstring of the escape grammar of each format (help_text_well_escaped), constructor-accepted inputs expose without error, Graphite sanitiser whitelist and one line per sample. Regex anchors, escape chains and the Graphite class are re-extracted each run; '
          'real expositions over an adversarial alphabet in every position are fed to an independent Python recogniser.',
     note='Known findings (listed, reproduced each run): C05:unit-raw (F4), C05:graphite-empty-path (G2). Graphite prefix is operator configuration, outside the quantifier (documented limit). '
          'Number tokens come from C13. Trusted: Lean kernel, extractor, sampling correspondence.',
@@ -91,7 +91,7 @@ CLAIMED['C07'] = dict(
          'explicit precondition ClaimsCover, restricted_calls_only_claimants. Real registries × name subsets (exhaustive for ≤ 8 names + random) judged by an independent filter oracle with '
          'call counting.',
     note='ClaimsCover (a collector only emits sample names it claimed) is a precondition of restricted_is_filter: proved for all built-in metric classes (builtin_claims_cover), false for collectors '
-         'without describe() under auto_describe off = known finding C07:undescribed-collector-not-restrictable. http_name_param links C17.',
+         'and for every collector built with the eight metrics_core family constructors (Props/C07Families: family_sample_names_claimed, family_ctor_claims_cover, restricted_is_filter_family_collectors; metrics_core.py is modelled and re-extracted), false for collectors without describe() under auto_describe off = known finding C07:undescribed-collector-not-restrictable. http_name_param links C17.',
     ref='DESIGN.md 5 C07')
 CLAIMED['C10'] = dict(
     text='Byte-level model of MmapedDict (layout, padding, doubling loop, positions, the three readers) with layout arithmetic re-extracted from mmap_dict.py; theorems for all write/read/reopen '
@@ -156,9 +156,9 @@ CLAIMED['C15'] = dict(
     text='One theorem per rule of the statement over lists of parsed lines with the offending line at an arbitrary position and arbitrary names, labels, numbers, groups before and after it: '
          'missing_eof, content_after_eof, blank_line, repeated/late_metadata, interleaved/clashing_families, unit_not_suffix, unit_on_info_or_stateset, info_not_one, stateset_bad_value/no_label, '
          'counter_like_nan/negative, quantile_out_of_range, count_not_integral, timestamp_backwards/partial, duplicate_label, exemplar_ineligible/too_long, bucket_bound_nan, '
-         'hist_bounds_not_increasing, hist_counts_not_cumulative (document level), hist_no_inf_partial / hist_count_ne_inf_partial (on the family sample list). Suffix lists, comparison operators, '
+         'hist_bounds_not_increasing, hist_counts_not_cumulative, hist_no_inf_document, hist_count_ne_inf_document (all document level; the two histogram-group rules with the closing event explicit). Suffix lists, comparison operators, '
          'limits and keywords are re-extracted each run; valid generated documents × 26 rule-violating transformations × every applicable position are fed to the real parser.',
-    note='Document-level theorems (offending line anywhere, everything else arbitrary) for every rule of the statement except two histogram-group rules; rejected_with_valueError composes them with om_parser_total (the error is ValueError). duplicate_label_document and exemplar_too_long_document are on rendered text. hist_no_inf_partial and hist_count_ne_inf_partial are on the sample list _check_histogram receives (the line-fold composition is missing because the failure is not prefix-stable). Exemptions (run against the real parser each check): info timestamp order; order only between consecutive samples of a group; negative _gsum; _created; a line repeating a series at an unchanged timestamp is dropped; native-histogram lines bypass the family-name test; families without # TYPE and a _count line before its buckets are harness-only.',
+    note='Document-level theorems (offending line anywhere, everything else arbitrary) for every rule of the statement; rejected_with_valueError composes them with om_parser_total (the error is ValueError). duplicate_label_document and exemplar_too_long_document are on rendered text. hist_no_inf_document / hist_count_ne_inf_document state the closing event explicitly (GroupClosed: the family closes or a sample of another group follows); not covered at document level: group lines repeating an earlier series at an unchanged timestamp, a count line preceding its buckets. Exemptions (run against the real parser each check): info timestamp order; order only between consecutive samples of a group; negative _gsum; _created; a line repeating a series at an unchanged timestamp is dropped; native-histogram lines bypass the family-name test; families without # TYPE and a _count line before its buckets are harness-only.',
     ref='DESIGN.md 5 C15')
 
 CLAIMED['C12'] = dict(
